@@ -258,9 +258,16 @@ def fork_call(fn, args=(), timeout=120.0):
         try:
             os.close(r)
             try:
-                import faulthandler
+                # diagnostics for a hung run: dump the stacks shortly before the parent kills us.
+                # (faulthandler.dump_traceback_later cannot be used: its watchdog thread does not
+                # survive fork() and re-arming it in a grandchild deadlocks.)
+                def _dump(signum, frame):
+                    import faulthandler
 
-                faulthandler.dump_traceback_later(max(1.0, timeout - 1.0), exit=False)
+                    faulthandler.dump_traceback(all_threads=True)
+
+                signal.signal(signal.SIGALRM, _dump)
+                signal.alarm(max(1, int(timeout) - 1))
             except Exception:
                 pass
             try:
